@@ -1,5 +1,6 @@
-(* C12_Proofs4.v — witnesses: the four places where the code on the tree (as modelled, and as
-   reproduced on real gorm by corpus/C12) departs from the property. *)
+(* C12_Proofs4.v — witnesses: the two places where the code on the tree (as modelled, and as
+   reproduced on real gorm by corpus/C12) still departs from the property; the former inputs of the
+   two defects fixed in /repo; non-vacuity. *)
 From Verif Require Import Base C12_Model C12_Proofs3.
 Open Scope Z_scope.
 
@@ -11,16 +12,19 @@ Lemma refuted_belongs_unscoped_replace :
   links KBelongs s 1 = [12] /\ tgt s = [11] /\ find_ids KBelongs [1] s = [].
 Proof. repeat split; vm_compute; reflexivity. Qed.
 
-(* belongs to: Unscoped().Delete(12) while linked to 11 deletes 11 and keeps the link *)
-Lemma refuted_belongs_unscoped_delete :
+(* the inputs of two defects that were fixed in /repo (d23ce2a, 75c7076) now behave as the property
+   says: Unscoped().Delete(12) while linked to 11 removes nothing; Unscoped().Clear() removes the
+   link and the old record, without error *)
+Lemma former_belongs_unscoped_delete :
   let s := final KBelongs [1] bt_init [(false, OAppend [[11]]); (true, ODelete [12])] in
-  links KBelongs s 1 = [11] /\ tgt s = [12] /\ find_ids KBelongs [1] s = [].
+  links KBelongs s 1 = [11] /\ tgt s = [11; 12] /\ find_ids KBelongs [1] s = [11].
 Proof. repeat split; vm_compute; reflexivity. Qed.
 
-(* belongs to: Unscoped().Clear() returns an error *)
-Lemma refuted_belongs_unscoped_clear :
-  map snd (run KBelongs [1] bt_init [(false, OAppend [[11]]); (true, OClear)]) = [false; true].
-Proof. vm_compute. reflexivity. Qed.
+Lemma former_belongs_unscoped_clear :
+  let s := final KBelongs [1] bt_init [(false, OAppend [[11]]); (true, OClear)] in
+  links KBelongs s 1 = [] /\ tgt s = [12] /\
+  map snd (run KBelongs [1] bt_init [(false, OAppend [[11]]); (true, OClear)]) = [false; false].
+Proof. repeat split; vm_compute; reflexivity. Qed.
 
 (* many2many, two owners: Replace([12],[11]) after Append([11],[12]) leaves owner 1 with {11,12} *)
 Definition m2m_init : st := mk_st [] [] [11; 12] [[]; []].
